@@ -130,6 +130,9 @@ def _invariants(state, graph_cfg, where: str, bad) -> None:
         want = "%s→%s" % ((src, dst) if src <= dst else (dst, src))
         if key != want or src > dst:
             bad("non-canonical-key", "%s: edge stored under %r with src=%r dst=%r (canonical %r)" % (where, key, src, dst, want))
+        if src == dst and rec.get("rel", "coact") == "coact":
+            # an item does not co-occur with itself: a co-activation edge joins an unordered PAIR of items
+            bad("self-loop", "%s: co-activation edge %r joins %r with itself" % (where, key, src))
         up = tuple(sorted((src, dst)))
         if up in pairs:
             bad("duplicate-pair", "%s: unordered pair %s has edges %r and %r" % (where, up, pairs[up], key))
@@ -172,7 +175,12 @@ def _api(p: Dict[str, Any], stats: Dict[str, int], shuffled: bool, gate_off: boo
                         thr, topk, cap = float(gcfg["coactivation_threshold"]), int(gcfg["observe_top_k"]), int(gcfg["pair_cap_per_obs"])
                         if m["pairs_updated"] > cap:
                             bad("pair-cap-exceeded", "%s: %d pairs updated, cap %d" % (where, m["pairs_updated"], cap))
-                        ok_ids = sorted([(i, s) for (i, s) in items if s >= thr], key=lambda t: (-t[1], t[0]))[:topk]
+                        # the top-k ITEMS: an id listed twice is one item, with its best score
+                        best: Dict[Any, float] = {}
+                        for (i, s) in items:
+                            if s >= thr and (i not in best or s > best[i]):
+                                best[i] = s
+                        ok_ids = sorted(best.items(), key=lambda t: (-t[1], t[0]))[:topk]
                         allowed = {i for i, _ in ok_ids}
                         changed = [kk for kk, rec in _edges(state).items() if before.get(kk) != rec]
                         allowed_keys = {"%s→%s" % ((a, b) if a <= b else (b, a)): (a, b) for a in sorted(allowed) for b in sorted(allowed)}
@@ -187,6 +195,12 @@ def _api(p: Dict[str, Any], stats: Dict[str, int], shuffled: bool, gate_off: boo
                                     bad("updated-pair-outside-topk", "%s: edge %s changed but top-k above threshold is %s" % (where, kk, sorted(allowed)))
                         if len(changed) > cap:
                             bad("pair-cap-exceeded", "%s: %d edges changed, cap %d" % (where, len(changed), cap))
+                        for kk in changed:
+                            # one observation is one co-occurrence of a pair, however often an id is listed
+                            c0 = int(((before.get(kk) or {}).get("attrs") or {}).get("coact", 0) or 0)
+                            c1 = int((_edges(state)[kk].get("attrs") or {}).get("coact", 0) or 0)
+                            if c1 - c0 > 1 and "→" not in (str(_edges(state)[kk]["src"]) + str(_edges(state)[kk]["dst"])):
+                                bad("pair-booked-twice-in-one-observation", "%s: edge %s co-activation count %d -> %d (items %s)" % (where, kk, c0, c1, items))
                         if changed:
                             stats["edges_touched"] = stats.get("edges_touched", 0) + len(changed)
                 elif k == "tick":
